@@ -62,3 +62,42 @@ Definition remove_cutout (cls : list pt -> pt -> Z) (coords : list pt) (boundari
     let has_in := existsb (Z.eqb 1) rs in let has_edge := existsb (Z.eqb 0) rs in
     if remove_inside then negb has_in && negb (has_edge && negb keep_contour)
     else has_in || (has_edge && keep_contour)) coords.
+
+(* ---------- the on-edge test of the first loop, decided exactly ----------
+   sqrt a + sqrt b - sqrt c < t  for squared distances a, b, c (rationals >= 0) and t > 0, by sign analysis and squaring *)
+Definition focal_lt (t a b c : Q) : bool :=
+  let K := c + t * t - a - b in
+  let rpos := qltb 0 K || qltb (K * K) (4 * t * t * c) in          (* K + 2 t sqrt c > 0 *)
+  if negb rpos then false else
+  let M := 4 * a * b - K * K - 4 * t * t * c in
+  let N := 4 * K * t in
+  if qleb 0 N then qltb M 0 || qltb (M * M) (N * N * c)
+  else qltb M 0 && qltb (N * N * c) (M * M).
+Definition d2 (p q : Q * Q) : Q := (fst p - fst q) * (fst p - fst q) + (snd p - snd q) * (snd p - snd q).
+Definition near_edge (tol : Q) (p : Q * Q) (e : (Q * Q) * (Q * Q)) : bool :=
+  focal_lt tol (d2 (fst e) p) (d2 (snd e) p) (d2 (fst e) (snd e)).
+(* point_polygon_check with its tolerance argument *)
+Definition ppc_tol (tol : Q) (poly : list (Q * Q)) (p : Q * Q) : Z := ppc_with (near_edge tol) poly p.
+
+(* ---------- domains.polygonal_land_constraint ---------- *)
+Fixpoint insert_by_len {A} (x : list A) (l : list (list A)) : list (list A) :=
+  match l with
+  | [] => [x]
+  | h :: t => if Nat.ltb (length h) (length x) then h :: insert_by_len x t else x :: l
+  end.
+Definition reorder {A} (l : list (list A)) : list (list A) := fold_right insert_by_len [] l.
+
+Definition qmax_list (l : list Q) : Q := match l with [] => 0 | h :: t => fold_left (fun a b => if qltb a b then b else a) t h end.
+Definition land_constraint (cls : list (Q * Q) -> (Q * Q) -> Z) (bmin bx by_ : Q) (outlines nogo : list (list (Q * Q)))
+           (kc0 kc1 : bool) : list (list (list (Q * Q))) :=
+  let pts := concat outlines in
+  let L := qmax_list (map fst pts) in let W := qmax_list (map snd pts) in
+  let nested := bi_rectangle_nested L W bmin bx by_ false in
+  map (fun dom =>
+    reorder (filter (fun f => negb (Nat.eqb (length f) 0))
+      (map (fun f => let f1 := remove_cutout cls f outlines false kc0 in
+                     match f1, nogo with
+                     | [], _ => []
+                     | _, [] => f1
+                     | _, _ => remove_cutout cls f1 nogo true kc1
+                     end) dom))) nested.
